@@ -1,0 +1,112 @@
+//! Verification hooks: the large object space of a real plan (cargo feature `mmtk_verif`;
+//! add-only wrappers).
+//!
+//! These let an out-of-tree harness drive the REAL [`LargeObjectSpace`] of a real `MMTK` instance
+//! by hand, single-threaded, the way `Plan::prepare` / `ProcessEdgesWork` / `Plan::release` do:
+//! `prepare(full_heap)`, `trace_object(queue, object)` with a `Vec`-backed queue, `release(full_heap)`.
+//! Every function is a transparent call of the real item on the plan's first large object space.
+
+use crate::policy::largeobjectspace::LargeObjectSpace;
+use crate::policy::space::Space;
+use crate::util::ObjectReference;
+use crate::vm::VMBinding;
+use crate::MMTK;
+
+/// Run `f` on the first `LargeObjectSpace` of the plan (`None` if the plan has none).
+fn with_los<VM: VMBinding, R>(mmtk: &MMTK<VM>, f: impl FnOnce(&LargeObjectSpace<VM>) -> R) -> Option<R> {
+    let mut f = Some(f);
+    let mut res = None;
+    mmtk.get_plan().for_each_space(&mut |space| {
+        if res.is_none() {
+            if let Some(los) = space.downcast_ref::<LargeObjectSpace<VM>>() {
+                if let Some(f) = f.take() {
+                    res = Some(f(los));
+                }
+            }
+        }
+    });
+    res
+}
+
+/// Run `f` on the first `LargeObjectSpace` of the plan, mutably.
+///
+/// # Safety
+/// No other thread may use the plan.
+unsafe fn with_los_mut<VM: VMBinding, R>(mmtk: &MMTK<VM>, f: impl FnOnce(&mut LargeObjectSpace<VM>) -> R) -> Option<R> {
+    let mut f = Some(f);
+    let mut res = None;
+    mmtk.get_plan_mut().for_each_space_mut(&mut |space| {
+        if res.is_none() {
+            if let Some(los) = space.downcast_mut::<LargeObjectSpace<VM>>() {
+                if let Some(f) = f.take() {
+                    res = Some(f(los));
+                }
+            }
+        }
+    });
+    res
+}
+
+/// Does the plan have a large object space?
+pub fn has_los<VM: VMBinding>(mmtk: &MMTK<VM>) -> bool {
+    with_los(mmtk, |_| ()).is_some()
+}
+
+/// `LargeObjectSpace::prepare(full_heap)`.
+///
+/// # Safety
+/// No other thread may use the plan.
+pub unsafe fn prepare<VM: VMBinding>(mmtk: &MMTK<VM>, full_heap: bool) -> Option<()> {
+    with_los_mut(mmtk, |los| los.prepare(full_heap))
+}
+
+/// `LargeObjectSpace::release(full_heap)` (sweeps: the pages of dead objects are really released).
+///
+/// # Safety
+/// No other thread may use the plan.
+pub unsafe fn release<VM: VMBinding>(mmtk: &MMTK<VM>, full_heap: bool) -> Option<()> {
+    with_los_mut(mmtk, |los| los.release(full_heap))
+}
+
+/// `LargeObjectSpace::trace_object(queue, object)` with a `Vec`-backed queue: returns the returned
+/// reference and everything that was enqueued by this call.
+pub fn trace_object<VM: VMBinding>(mmtk: &MMTK<VM>, object: ObjectReference) -> Option<(ObjectReference, Vec<ObjectReference>)> {
+    with_los(mmtk, |los| {
+        let mut enqueued = Vec::new();
+        let mut queue = |o: ObjectReference| enqueued.push(o);
+        let r = los.trace_object(&mut queue, object);
+        (r, enqueued)
+    })
+}
+
+/// The four treadmill sets `[from_space, to_space, collect_nursery, alloc_nursery]` (unsorted).
+pub fn sets<VM: VMBinding>(mmtk: &MMTK<VM>) -> Option<[Vec<ObjectReference>; 4]> {
+    with_los(mmtk, |los| los.verif_treadmill().verif_sets())
+}
+
+/// `(mark_state, in_nursery_gc)`.
+pub fn state<VM: VMBinding>(mmtk: &MMTK<VM>) -> Option<(u8, bool)> {
+    with_los(mmtk, |los| (los.verif_mark_state(), los.verif_in_nursery_gc()))
+}
+
+/// The raw `LOCAL_LOS_MARK_NURSERY_SPEC` bits of an object (bit 0 = mark, bit 1 = nursery).
+pub fn bits<VM: VMBinding>(mmtk: &MMTK<VM>, object: ObjectReference) -> Option<u8> {
+    with_los(mmtk, |los| los.verif_mark_nursery_bits(object))
+}
+
+/// `(is_in_nursery(object), is_marked(object))` as the space itself answers.
+pub fn queries<VM: VMBinding>(mmtk: &MMTK<VM>, object: ObjectReference) -> Option<(bool, bool)> {
+    with_los(mmtk, |los| (los.verif_is_in_nursery(object), los.is_marked(object)))
+}
+
+/// `Space::set_allocate_as_live` on the large object space (what `ConcurrentImmix` does while
+/// marking concurrently).
+pub fn set_allocate_as_live<VM: VMBinding>(mmtk: &MMTK<VM>, live: bool) -> Option<()> {
+    with_los(mmtk, |los| los.set_allocate_as_live(live))
+}
+
+/// Does this space unlog freshly allocated objects (generational plans)?  Allocation as live is
+/// then refused by a debug assertion of `initialize_object_metadata`.
+pub fn unlog_allocated_object<VM: VMBinding>(mmtk: &MMTK<VM>) -> Option<bool> {
+    with_los(mmtk, |los| los.common().unlog_allocated_object)
+}
